@@ -629,3 +629,102 @@ def s_commute_repeated_variable(_ctx):
 
 SCENARIOS.append(Scenario("C06.pattern_ir.commute.repeated_variable", s_commute_repeated_variable,
                           [(PREL, "Var.clone"), (PREL, "ValuePattern.clone"), (PREL, "NodePattern.clone"), (PREL, "GraphPattern.commute")], kind="evaluation"))
+
+
+# ------------------------------------------------------------------ _get_output_values: the outputs reported for a match ---
+
+MREL = "onnxscript/rewriter/_matcher.py"
+
+
+def s_get_output_values(ctx):
+    """SimplePatternMatcher._get_output_values for a pattern with ANY number of outputs: output j of the match is the value bound to output
+    pattern j — by name when the pattern value is named, by identity otherwise — in the pattern's order; if some output pattern is unbound
+    the match fails (None).  Loop invariant over the list being built, at one Skolem position."""
+    from onnxscript.rewriter import _matcher, _basics, _pattern_ir
+    I = Interp(ctx)
+    n = ctx.int("pattern_outputs")
+    ctx.assume(n >= 0)
+    j0 = ctx.int("j0")
+    ctx.assume(z3.And(j0 >= 0, j0 < n))
+    ctx.witness.update(n=n, j0=j0)
+    named = z3.Function("output_pattern_is_named", I_, z3.BoolSort())
+    name_of = z3.Function("output_pattern_name", I_, S_)
+    A = z3.ArraySort
+    bhas, bval = z3.Const("bindings_has", A(S_, z3.BoolSort())), z3.Const("bindings_val", A(S_, I_))
+    vhas, vval = z3.Const("value_bindings_has", A(I_, z3.BoolSort())), z3.Const("value_bindings_val", A(I_, I_))
+    bound = lambda j: z3.If(named(j), z3.Select(bhas, name_of(j)), z3.Select(vhas, j))        # noqa: E731
+    value = lambda j: z3.If(named(j), z3.Select(bval, name_of(j)), z3.Select(vval, j))        # noqa: E731
+
+    def outp(j):
+        p = SObj(_pattern_ir.ValuePattern, "output_pattern")
+        p.pid = j                                   # an unnamed output pattern is identified by its position (patterns are distinct objects)
+        p.fields["name"] = SStr(name_of(j)) if ctx.branch(named(j)) else None
+        return p
+    pat = SObj(_pattern_ir.GraphPattern, "pattern")
+    pat.fields["outputs"] = SSeq(n, lambda j: outp(z3.simplify(j)), name="pattern.outputs")
+    pm = SObj(_basics.PartialMatchResult, "top")
+    pm.fields.update(_success=True, _bindings=SMap(bhas, bval, mk=SInt, un=term, name="bindings"),
+                     _value_bindings=SMap(vhas, vval, mk=SInt, un=term, name="value_bindings", keyfn=World.pat_key),
+                     _node_bindings={}, _matched_nodes=[], _outputs=[], _reason="", _failure_nodes_and_values=[])
+    match = SObj(_basics.MatchResult, "match")
+    match.fields["_partial_matches"] = [pm]
+    self = SObj(_matcher.SimplePatternMatcher, "matcher")
+    self.fields.update(pattern=pat, _match=match)
+    desc = {}
+
+    def mk_vals(interp):
+        L = ctx.int("len_output_values")
+        ctx.assume(L >= 0)
+        desc["v"] = z3.Function(ctx.fresh("out_val"), I_, I_)
+        s = SSeq(L, lambda j: SInt(desc["v"](j)), name="output_values")
+        s.mutable = True
+        return s
+
+    def mk_unbound(interp):
+        L = ctx.int("len_unbound")
+        ctx.assume(L >= 0)
+        s = SSeq(L, lambda j: SStr(z3.String(ctx.fresh("unbound_name"))), name="unbound_values")
+        s.mutable = True
+        return s
+
+    def entry(lst, j):
+        v = desc["v"](j)
+        for old_len, item in getattr(lst, "appended", []):
+            v = z3.If(j == old_len, term(item), v)
+        return v
+    q = z3.Int("q")
+
+    def inv(interp, env, k, pre, it):
+        vals, unb = env.lookup("output_values"), env.lookup("unbound_values")
+        if not isinstance(vals, SSeq):
+            return [("nothing_collected_before_the_loop", z3.BoolVal(len(vals) == 0 and len(unb) == 0))]
+        return [("lengths_account_for_every_visited_output", z3.And(vals.len >= 0, unb.len >= 0, vals.len + unb.len == k)),
+                ("while_nothing_is_unbound_entry_j_is_the_value_bound_to_output_pattern_j",
+                 z3.Implies(unb.len == 0, z3.ForAll([q], z3.Implies(z3.And(q >= 0, q < k), z3.And(bound(q), entry(vals, q) == value(q)))))),
+                ("something_is_unbound_only_if_some_visited_output_pattern_is_unbound",
+                 z3.Implies(unb.len > 0, z3.Exists([q], z3.And(q >= 0, q < k, z3.Not(bound(q))))))]
+    I.loops[("SimplePatternMatcher._get_output_values", 0)] = LoopSpec({"output_values": mk_vals, "unbound_values": mk_unbound}, inv)
+    P = "C06.matcher.get_output_values.any_number."
+    try:
+        r = I.call(I.getattr(self, "_get_output_values"), [])
+    except PyRaise:
+        ctx.check(P + "never_raises", False, CL_BIND)
+        return
+    if r is None:
+        ctx.cover("get_output_values.unbound")
+        ctx.check(P + "None_only_if_some_output_pattern_is_unbound", z3.Exists([q], z3.And(q >= 0, q < n, z3.Not(bound(q)))), CL_BIND)
+        ctx.check(P + "an_unbound_output_fails_the_match", I.truth(match) is False, CL_BIND)
+        return
+    ctx.cover("get_output_values.all_bound")
+    ok = isinstance(r, SSeq)
+    ctx.check(P + "returns_a_list", ok, CL_BIND)
+    if not ok:
+        return
+    ctx.check(P + "one_value_per_output_pattern", r.len == n, CL_BIND)
+    ctx.check(P + "output_j_is_the_value_bound_to_output_pattern_j", z3.And(bound(j0), entry(r, j0) == value(j0)),
+              "C06: 'The bindings returned are exactly the instance's values' / C07: match.outputs[j] is replaced by the j-th replacement output")
+    ctx.check(P + "the_match_stays_successful", I.truth(match) is True, CL_BIND)
+
+
+SCENARIOS.append(Scenario("C06.matcher.get_output_values[any number of outputs]", s_get_output_values, [(MREL, "SimplePatternMatcher._get_output_values")],
+                          assumptions=["loop invariant with a universally quantified clause over the visited positions; termination not proved"]))
